@@ -111,7 +111,8 @@ func newStore(v1 string, pages bool) *cfmem.API {
 		// r1 on page 1, r2 on page 2 (index 25), untouched on page 3
 		z1.Records = append(append(append(append([]*cfmem.Record{}, z1.Records[0]), recs[:24]...), z1.Records[1]), append(recs[24:], z1.Records[2])...)
 	}
-	z2 := &cfmem.Zone{ID: "zone2", Name: "example.net", Records: []*cfmem.Record{
+	// (example.net is a zone that has been added to the account and is still PENDING: its records are published like any other's)
+	z2 := &cfmem.Zone{ID: "zone2", Name: "example.net", Status: "pending", Records: []*cfmem.Record{
 		{ID: "rec3", Name: "example.net", Priority: 1, Target: ".", Value: `alpn="h2" ech="b2xk"`},
 	}}
 	if pages {
